@@ -4,7 +4,7 @@
     [None] = constructor error). *)
 From TU Require Import Base C01_Model C01_Proofs C01_Check.
 From Coq Require Import Permutation.
-From TU Require Import UAX29_Model C01_UAX29.
+From TU Require Import UAX29_Model C01_UAX29 C01_Inj.
 Open Scope N_scope.
 
 (** [String::from_utf8] after UTF-8 encoding is the identity (lossless encoding of every scalar string). *)
@@ -253,6 +253,22 @@ Theorem uax29_agree_sound : forall v, uax29_agree v = true ->
   Forall (fun o => o = seg_of (v_bool (v_nth 1 v)) (concat o)) (v_list (v_list v_str) (v_nth 12 v)).
 Proof. exact uax29_agree_sound_l. Qed.
 Print Assumptions uax29_agree_sound.
+
+(** Lossless as injectivity: two different scalar strings never have the same UTF-8 encoding. *)
+Theorem utf8s_injective : forall s t,
+  scalars s = true -> scalars t = true -> utf8s s = utf8s t -> s = t.
+Proof. exact utf8s_injective_l. Qed.
+Print Assumptions utf8s_injective.
+
+(** ... and never the same byte-tokenizer ids, whatever the two parse modes are: the id sequence
+    determines the text (a consequence of [byte_roundtrip], stated without the decoder). *)
+Theorem byte_tokenize_injective : forall tokens padto pad prefix suffix b s t ign ign' ids,
+  byte_base tokens padto pad prefix suffix = Some b ->
+  Forall (fun t => t <> []) (b_sv b) -> Forall (fun t => scalars t = true) (b_sv b) ->
+  scalars s = true -> scalars t = true ->
+  byte_tokenize b s ign = Some ids -> byte_tokenize b t ign' = Some ids -> s = t.
+Proof. exact byte_tokenize_injective_l. Qed.
+Print Assumptions byte_tokenize_injective.
 
 (** Non-vacuity: the real alphabet, default tokens, text "ab <pad>c!" parsed in grapheme mode: premises of
     [char_roundtrip_u] hold; "e U+0301 x" gives the unknown id for the joined cluster *)
